@@ -6,6 +6,7 @@ package main
 // Jacobian/Hessian helpers against polynomial maps differentiated by TLC.
 
 import (
+	"encoding/json"
 	"math"
 
 	. "github.com/pbenner/autodiff"
@@ -68,6 +69,7 @@ type PolyCase struct {
 	Idx  int64        `json:"idx"`
 	F    [][]PolyTerm `json:"f"`
 	X    []Rat        `json:"x"`
+	PStates []string  `json:"pstates"`
 	Val  []Rat        `json:"val"`
 	Jac  [][]Rat      `json:"jac"`
 	Hess [][]Rat      `json:"hess"`
@@ -805,6 +807,85 @@ func polyEval(p []PolyTerm, x ConstVector, t ScalarType) Scalar {
 	return sum
 }
 
+// evaluation point in the derivative state named by the specification
+// (PointStates in MatrixCalculus.tla); the values are always c.X
+func polyPoint(xt ScalarType, c *PolyCase, state string) MagicVector {
+	nv := c.N
+	val := func(i int) float64 { return c.X[i].F() }
+	switch state {
+	case "fresh":
+		x := NullDenseVector(xt, nv)
+		for i := 0; i < nv; i++ {
+			x.At(i).SetFloat64(val(i))
+		}
+		return x.(MagicVector)
+	case "slice_o1", "slice_o2":
+		order := 1
+		if state == "slice_o2" {
+			order = 2
+		}
+		theta := NullDenseVector(xt, nv+2)
+		theta.At(0).SetFloat64(0.75)
+		theta.At(nv + 1).SetFloat64(-1.25)
+		for i := 0; i < nv; i++ {
+			theta.At(i + 1).SetFloat64(val(i))
+		}
+		if err := theta.(MagicVector).Variables(order); err != nil {
+			panic(err)
+		}
+		return theta.(MagicVector).MagicSlice(1, nv+1)
+	case "computed_o1", "computed_o2":
+		order := 1
+		if state == "computed_o2" {
+			order = 2
+		}
+		u := NullDenseVector(xt, nv+1)
+		for i := 0; i < nv; i++ {
+			u.At(i).SetFloat64(val(i))
+		}
+		u.At(nv).SetFloat64(1)
+		if err := u.(MagicVector).Variables(order); err != nil {
+			panic(err)
+		}
+		x := NullDenseVector(xt, nv)
+		for i := 0; i < nv; i++ {
+			x.At(i).Mul(u.ConstAt(i), u.ConstAt(nv))
+		}
+		return x.(MagicVector)
+	case "sameN_o1":
+		x := NullDenseVector(xt, nv)
+		list := []MagicScalar{}
+		for i := nv - 1; i >= 0; i-- {
+			x.At(i).SetFloat64(val(i))
+			list = append(list, x.(MagicVector).MagicAt(i))
+		}
+		if err := Variables(1, list...); err != nil {
+			panic(err)
+		}
+		return x.(MagicVector)
+	case "sameN_o2":
+		u := NullDenseVector(xt, nv)
+		list := []MagicScalar{}
+		for i := nv - 1; i >= 0; i-- {
+			u.At(i).SetFloat64(val(i))
+			list = append(list, u.(MagicVector).MagicAt(i))
+		}
+		if err := Variables(2, list...); err != nil {
+			panic(err)
+		}
+		x := NullDenseVector(xt, nv)
+		t := NullScalar(xt)
+		for i := 0; i < nv; i++ {
+			j := (i + 1) % nv
+			t.Sub(u.ConstAt(j), ConstFloat64(val(j)))
+			t.Mul(t, t)
+			x.At(i).Add(u.ConstAt(i), t)
+		}
+		return x.(MagicVector)
+	}
+	panic("unknown point state " + state)
+}
+
 func (r *reporter) c06Poly(c *PolyCase) {
 	nv := c.N
 	jac := ratM(c.Jac)
@@ -815,14 +896,14 @@ func (r *reporter) c06Poly(c *PolyCase) {
 			scale = math.Max(scale, math.Abs(x))
 		}
 	}
+	states := c.PStates
+	if len(states) == 0 {
+		states = []string{"fresh"}
+	}
 	for _, ti := range allTypes {
 		xt := Real64Type
 		if ti.t == Float32Type || ti.t == Real32Type {
 			xt = Real32Type
-		}
-		x := NullDenseVector(xt, nv)
-		for i := 0; i < nv; i++ {
-			x.At(i).SetFloat64(c.X[i].F())
 		}
 		f := func(y ConstVector) ConstVector {
 			out := NullDenseVector(xt, len(c.F))
@@ -832,23 +913,69 @@ func (r *reporter) c06Poly(c *PolyCase) {
 			return out
 		}
 		g := func(y ConstVector) ConstScalar { return polyEval(c.F[0], y, xt) }
-		{
-			m := NullDenseMatrix(ti.t, len(c.F), nv)
-			o := call(func() error { m.Jacobian(f, x.(MagicVector)); return nil })
-			r.judgeM("Jacobian", ti.name, "poly", nil, o, m, expectInv{jac, scale, "none"}, ti.tol, len(c.F))
-		}
-		{
-			m := NullDenseMatrix(ti.t, nv, nv)
-			o := call(func() error { m.Hessian(g, x.(MagicVector)); return nil })
-			r.judgeM("Hessian", ti.name, "poly", nil, o, m, expectInv{hess, scale, "none"}, ti.tol, nv)
-		}
-		// the helper must not leave the caller's argument activated or changed
-		r.nchecks++
-		for i := 0; i < nv; i++ {
-			if x.ConstAt(i).GetFloat64() != c.X[i].F() {
-				r.mismatch("Jacobian", ti.name, "poly", "argument_changed", nil, vh.M{"at": i})
-				break
+		for _, state := range states {
+			opts := "poly/" + state
+			r.note = vh.M{"point_state": state}
+			var x MagicVector
+			if msg := vh.Try(func() { x = polyPoint(xt, c, state) }); msg != "" {
+				// the library refused to build the point: nothing to hand to the helpers
+				r.count("point_state_unbuildable:" + state)
+				continue
+			}
+			ok := true
+			for i := 0; i < nv; i++ {
+				if x.ConstAt(i).GetFloat64() != c.X[i].F() {
+					ok = false
+				}
+			}
+			if !ok {
+				r.count("point_state_inexact:" + state)
+				continue
+			}
+			r.count("point_state:" + state)
+			// what the caller's point carries must survive the helper
+			before := derivState(x)
+			{
+				m := NullDenseMatrix(ti.t, len(c.F), nv)
+				o := call(func() error { m.Jacobian(f, x); return nil })
+				r.judgeM("Jacobian", ti.name, opts, nil, o, m, expectInv{jac, scale, "none"}, ti.tol, len(c.F))
+			}
+			{
+				m := NullDenseMatrix(ti.t, nv, nv)
+				o := call(func() error { m.Hessian(g, x); return nil })
+				r.judgeM("Hessian", ti.name, opts, nil, o, m, expectInv{hess, scale, "none"}, ti.tol, nv)
+			}
+			r.nchecks++
+			if after := derivState(x); after != before {
+				r.mismatch("Jacobian", ti.name, opts, "argument_changed", nil, vh.M{"before": before, "after": after})
 			}
 		}
+		r.note = nil
 	}
+}
+
+// value and derivative state of a vector, as a comparable string
+func derivState(x ConstVector) string {
+	b, _ := json.Marshal(func() interface{} {
+		out := []interface{}{}
+		for i := 0; i < x.Dim(); i++ {
+			s := x.ConstAt(i)
+			e := []interface{}{jsonNum(s.GetFloat64()), s.GetOrder(), s.GetN()}
+			if s.GetOrder() >= 1 {
+				for k := 0; k < s.GetN(); k++ {
+					e = append(e, jsonNum(s.GetDerivative(k)))
+				}
+			}
+			if s.GetOrder() >= 2 {
+				for k := 0; k < s.GetN(); k++ {
+					for l := 0; l < s.GetN(); l++ {
+						e = append(e, jsonNum(s.GetHessian(k, l)))
+					}
+				}
+			}
+			out = append(out, e)
+		}
+		return out
+	}())
+	return string(b)
 }
